@@ -908,9 +908,12 @@ Qed.
 (* ------------------------------------------------------------------------------------------ *)
 (* strip_node leaves no node of the dropped kind anywhere in the tree *)
 
+Lemma list_sum_cons a l : list_sum (a :: l) = (a + list_sum l)%nat.
+Proof. reflexivity. Qed.
+
 Lemma count_kind_tag p ns name attrs kids :
   count_kind p (Tag ns name attrs kids) = list_sum (map (count_kind p) kids).
-Proof. cbn [count_kind]. induction kids as [|k r IH]; cbn [map list_sum fold_right]; [reflexivity|]. rewrite IH. reflexivity. Qed.
+Proof. cbn [count_kind]. induction kids as [|k r IH]; cbn [map]; rewrite ?list_sum_cons; [reflexivity|]. rewrite IH. reflexivity. Qed.
 
 Lemma count_merge_items p l : (forall s, p (Text s) = false) ->
   list_sum (map (count_kind p) (merge_items (fun x => x) l)) = list_sum (map (count_kind p) l).
@@ -921,46 +924,37 @@ Proof.
             merge_items (fun x => x) (x :: r) = x :: merge_items (fun x => x) r)
     by (intros y Hy; destruct y; try discriminate; reflexivity).
   destruct x as [ns name attrs kids|s|c|t c].
-  - rewrite Hnt by reflexivity. cbn [map list_sum fold_right] in *. rewrite IH. reflexivity.
+  - rewrite Hnt by reflexivity. cbn [map] in *; rewrite ?list_sum_cons in *. rewrite IH. reflexivity.
   - change (merge_items (fun x => x) (Text s :: r))
       with (match merge_items (fun x => x) r with Text s' :: r' => Text (s ++ s') :: r' | r' => Text s :: r' end).
-    cbn [map list_sum fold_right] in *. rewrite <- IH, Ht.
-    destruct (merge_items (fun x => x) r) as [|y r']; [cbn; rewrite Ht; reflexivity|].
-    destruct y; cbn [map list_sum fold_right]; rewrite ?Ht; reflexivity.
-  - rewrite Hnt by reflexivity. cbn [map list_sum fold_right] in *. rewrite IH. reflexivity.
-  - rewrite Hnt by reflexivity. cbn [map list_sum fold_right] in *. rewrite IH. reflexivity.
+    cbn [map] in *; rewrite ?list_sum_cons in *. rewrite <- IH, Ht.
+    destruct (merge_items (fun x => x) r) as [|y r']; [cbn [map]; rewrite ?list_sum_cons, Ht; reflexivity|].
+    destruct y; cbn [map]; rewrite ?list_sum_cons, ?Ht; reflexivity.
+  - rewrite Hnt by reflexivity. cbn [map] in *; rewrite ?list_sum_cons in *. rewrite IH. reflexivity.
+  - rewrite Hnt by reflexivity. cbn [map] in *; rewrite ?list_sum_cons in *. rewrite IH. reflexivity.
 Qed.
 
 Lemma count_strip_items p rc rp rec kids :
-  (forall k, keep rc rp k = true -> is_tag k = false -> count_kind p k = 0%nat) ->
-  Forall (fun k => count_kind p (rec k) = 0%nat) kids ->
-  (forall k, is_tag k = false -> rec k = k) ->
+  Forall (fun k => keep rc rp k = true -> count_kind p (rec k) = 0%nat) kids ->
   list_sum (map (count_kind p) (strip_items rc rp rec kids)) = 0%nat.
 Proof.
-  intros Hk Hf Hr. induction Hf as [|k r Hk0 Hf IH]; [reflexivity|].
+  intros Hf. induction Hf as [|k r Hk0 Hf IH]; [reflexivity|].
   cbn [strip_items]. fold (strip_items rc rp rec r). destruct (keep rc rp k) eqn:E; [|exact IH].
-  cbn [map list_sum fold_right]. fold (list_sum (map (count_kind p) (strip_items rc rp rec r))).
-  rewrite IH, Hk0. reflexivity.
+  cbn [map]; rewrite ?list_sum_cons. rewrite IH, Hk0; reflexivity.
 Qed.
 
 Theorem strip_node_no_comment rp n : is_comment n = false -> count_kind is_comment (strip_node true rp n) = 0%nat.
 Proof.
   induction n as [ns name attrs kids IH|s|c|t c] using node_ind'; intros Hn; try reflexivity; try discriminate.
   cbn [strip_node]. rewrite count_kind_tag, count_merge_items by reflexivity.
-  apply count_strip_items.
-  - intros k Hk Ht. destruct k; try discriminate; reflexivity.
-  - apply Forall_forall. intros k Hin. rewrite Forall_forall in IH.
-    destruct (is_comment k) eqn:Ek; [destruct k; try discriminate; reflexivity|]. apply IH; assumption.
-  - intros k Ht. destruct k; try discriminate; reflexivity.
+  apply count_strip_items. apply Forall_forall. intros k Hin Hk. rewrite Forall_forall in IH.
+  apply IH; [assumption|]. destruct k; try reflexivity; discriminate.
 Qed.
 
 Theorem strip_node_no_pi rc n : is_pi n = false -> count_kind is_pi (strip_node rc true n) = 0%nat.
 Proof.
   induction n as [ns name attrs kids IH|s|c|t c] using node_ind'; intros Hn; try reflexivity; try discriminate.
   cbn [strip_node]. rewrite count_kind_tag, count_merge_items by reflexivity.
-  apply count_strip_items.
-  - intros k Hk Ht. destruct k; try discriminate; try reflexivity. destruct rc; reflexivity.
-  - apply Forall_forall. intros k Hin. rewrite Forall_forall in IH.
-    destruct (is_pi k) eqn:Ek; [destruct k; try discriminate; reflexivity|]. apply IH; assumption.
-  - intros k Ht. destruct k; try discriminate; reflexivity.
+  apply count_strip_items. apply Forall_forall. intros k Hin Hk. rewrite Forall_forall in IH.
+  apply IH; [assumption|]. destruct k; try reflexivity. destruct rc; discriminate.
 Qed.
